@@ -90,7 +90,7 @@ def contention_case(draw, d):
                                  'move-vs-put', 'traitagg-vs-alloc',
                                  'reshape-vs-alloc', 'same-consumer',
                                  'vs-delete', 'double-submit',
-                                 'tree-race']))
+                                 'tree-race', 'class-race']))
     v = versions_cg(draw)
     free_cons = [c for c in gen.CONS if c not in d.consumers]
     held = sorted(d.consumers)
@@ -109,6 +109,42 @@ def contention_case(draw, d):
         b = [a for a in ok if 2 * a > int(gen.free_for(d, rp, rc, (c,)))]
         return draw(st.sampled_from(b or ok or [1]))
 
+    if kind == 'class-race':
+        # an inventory of a custom class is written while the class (or the
+        # trait of a trait update) is being deleted
+        g = d.providers[rp]['generation']
+        if draw(st.booleans()):
+            unused = [c for c in sorted(d.classes) if c.startswith('CUSTOM_')
+                      and not any(k == c for (_p, k) in d.inventories)]
+            if not unused:
+                return None
+            rcx = draw(st.sampled_from(unused))
+            invs = current_inv_body(d, rp)
+            invs[rcx] = {'total': draw(st.integers(1, 8))}
+            reqs['A'] = gen.R(
+                'PUT', '/resource_providers/%s/inventories' % rp, v,
+                {'resource_provider_generation': g, 'inventories': invs},
+                'put_inventories', [], target=rp)
+            if draw(st.booleans()):
+                reqs['A'] = gen.R(
+                    'POST', '/resource_providers/%s/inventories' % rp, v,
+                    {'resource_class': rcx, 'total': 4}, 'post_inventory', [],
+                    target=rp)
+            reqs['B'] = gen.R('DELETE', '/resource_classes/' + rcx, v, None,
+                              'delete_class', [])
+        else:
+            unused = [t for t in sorted(d.traits) if t.startswith('CUSTOM_')
+                      and not any(x == t for (_p, x) in d.rp_traits)]
+            if not unused:
+                return None
+            tx = draw(st.sampled_from(unused))
+            cur = sorted({t for (p, t) in d.rp_traits if p == rp} | {tx})
+            reqs['A'] = gen.R('PUT', '/resource_providers/%s/traits' % rp, v,
+                              {'resource_provider_generation': g,
+                               'traits': cur}, 'put_rp_traits', [], target=rp)
+            reqs['B'] = gen.R('DELETE', '/traits/' + tx, v, None,
+                              'delete_trait', [])
+        return reqs
     if kind == 'tree-race':
         # structural requests around one provider P: delete it, give it a
         # child, move another (sub)tree under it, move P itself
@@ -450,6 +486,26 @@ def provider_race_case(draw, d):
         # the second copy changes nothing once the first is committed
         import copy
         reqs['B'] = copy.deepcopy(reqs['A'])
+    elif draw(st.integers(0, 5)) == 5:
+        # the provider is deleted and created again under the same uuid
+        # while a generation-carrying write is in flight (a new provider,
+        # whose generation starts again at 0)
+        free = [u for u in sorted(d.providers) if not d.children(u) and
+                not any(p == u for (_c, p, _k) in d.allocations)]
+        if free:
+            rp2 = draw(st.sampled_from(free))
+            p2 = d.providers[rp2]
+            body = {'name': p2['name'], 'uuid': rp2}
+            if p2['parent'] is not None:
+                body['parent_provider_uuid'] = p2['parent']
+            reqs = {
+                'A': provider_write(draw, d, rp2, v,
+                                    d.providers[rp2]['generation']),
+                'B': gen.R('DELETE', '/resource_providers/' + rp2, v, None,
+                           'delete_rp', [], target=rp2),
+                'C': gen.R('POST', '/resource_providers',
+                           v if v >= (1, 14) else (1, 14), body, 'create_rp',
+                           ['recreate'])}
     return reqs
 
 
